@@ -778,7 +778,13 @@ class PSBTView:
             else:
                 hdkey = root.derive(der)
 
-            if hdkey.xonly() != pub.xonly():
+            if inp.is_taproot:
+                matches = hdkey.xonly() == pub.xonly()
+            else:
+                # an ECDSA signature is filed under pub itself: pub must be
+                # the derived point, not only share its x coordinate
+                matches = hdkey.sec() == ec.PublicKey(pub._point).sec()
+            if not matches:
                 raise PSBTError("Derivation path doesn't look right")
             derived_keypairs.add((hdkey.key, pub))
 
